@@ -1128,6 +1128,8 @@ class _Cfg:
     fp_error = False  # non-jitted numpy code runs under the programs' `warnings.simplefilter("error", RuntimeWarning)`: an invalid
     #                   or zero-divisor ARRAY division (numpy would warn) raises, unless the code under test set np.errstate to ignore
     note_int_truediv = False  # emit an `int-truediv` event when `/` is applied to two integers (the result is a float64 in numba)
+    nd_sets = False  # modules loaded while this is set get `set` / `frozenset` / set displays / set comprehensions whose ITERATION ORDER is
+    #                  chosen by the solver (str / bytes hashing is randomised per process: the order is not a function of the inputs)
 
 
 cfg = _Cfg()
@@ -2002,12 +2004,170 @@ class _Rewrite(ast.NodeTransformer):
             node.type = ast.Name("Exception", ast.Load())
         return node
 
+    def visit_Set(self, node):
+        self.generic_visit(node)
+        if not cfg.nd_sets:
+            return node
+        return ast.copy_location(ast.Call(ast.Name("__ndset__", ast.Load()), [ast.List(node.elts, ast.Load())], []), node)
+
+    def visit_SetComp(self, node):
+        self.generic_visit(node)
+        if not cfg.nd_sets:
+            return node
+        return ast.copy_location(ast.Call(ast.Name("__ndset__", ast.Load()), [ast.ListComp(node.elt, node.generators)], []), node)
+
     def visit_Constant(self, node):
         if isinstance(node.value, float):
             return ast.copy_location(
                 ast.Call(ast.Name("__symfloat__", ast.Load()), [ast.Constant(repr(node.value))], []), node
             )
         return node
+
+
+# ------------------------------------------------------------------ sets with a solver-chosen iteration order
+
+
+def _nd_perms(n):
+    """the candidate orders of an n-element set: all of them up to 3 elements, 6 representative ones beyond"""
+    import itertools as _it
+
+    idx = list(range(n))
+    if n <= 3:
+        return [list(p) for p in _it.permutations(idx)]
+    h = n // 2
+    cands = [idx, idx[::-1], idx[1:] + idx[:1], idx[h:] + idx[:h], [1, 0] + idx[2:], idx[:-2] + [n - 1, n - 2]]
+    out = []
+    for c_ in cands:
+        if c_ not in out:
+            out.append(c_)
+    return out
+
+
+class NDSet(set):
+    """a Python set as the language defines it: membership, size and algebra are those of `set`; the ORDER in which it is
+    iterated is unspecified -- here drawn by the solver (one bounded integer per iterated set state), stable while the set is
+    not modified, as CPython guarantees.  Results of the set algebra are NDSets again."""
+
+    _counter = [0]
+
+    def __init__(self, it=()):
+        super().__init__()
+        self._ord = []
+        self._perm = None
+        for x in it:
+            self.add(x)
+
+    # ---- mutation keeps the insertion list and drops the drawn order
+    def add(self, x):
+        if not set.__contains__(self, x):
+            set.add(self, x)
+            self._ord.append(x)
+            self._perm = None
+
+    def discard(self, x):
+        if set.__contains__(self, x):
+            set.discard(self, x)
+            self._ord = [y for y in self._ord if not (y is x or y == x)]
+            self._perm = None
+
+    def remove(self, x):
+        if not set.__contains__(self, x):
+            raise KeyError(x)
+        self.discard(x)
+
+    def pop(self):
+        for x in self:
+            self.discard(x)
+            return x
+        raise KeyError("pop from an empty set")
+
+    def clear(self):
+        set.clear(self)
+        self._ord = []
+        self._perm = None
+
+    def update(self, *others):
+        for o in others:
+            for x in o:
+                self.add(x)
+
+    def __ior__(self, o):
+        self.update(o)
+        return self
+
+    def __iand__(self, o):
+        for x in [y for y in self._ord if y not in o]:
+            self.discard(x)
+        return self
+
+    def __isub__(self, o):
+        for x in [y for y in self._ord if y in o]:
+            self.discard(x)
+        return self
+
+    def difference_update(self, *others):
+        for o in others:
+            self.__isub__(set(o))
+
+    def intersection_update(self, *others):
+        for o in others:
+            self.__iand__(set(o))
+
+    # ---- algebra returns NDSets
+    def copy(self):
+        return NDSet(self._ord)
+
+    def __or__(self, o):
+        return NDSet(list(self._ord) + [x for x in _nd_plain_order(o)])
+
+    __ror__ = __or__
+    union = lambda self, *os_: NDSet(list(self._ord) + [x for o in os_ for x in _nd_plain_order(o)])  # noqa: E731
+
+    def __and__(self, o):
+        return NDSet([x for x in self._ord if x in o])
+
+    __rand__ = __and__
+    intersection = lambda self, *os_: NDSet([x for x in self._ord if all(x in o for o in os_)])  # noqa: E731
+
+    def __sub__(self, o):
+        return NDSet([x for x in self._ord if x not in o])
+
+    def __rsub__(self, o):
+        return NDSet([x for x in _nd_plain_order(o) if not set.__contains__(self, x)])
+
+    difference = lambda self, *os_: NDSet([x for x in self._ord if not any(x in o for o in os_)])  # noqa: E731
+
+    def __xor__(self, o):
+        return NDSet([x for x in self._ord if x not in o] + [x for x in _nd_plain_order(o) if not set.__contains__(self, x)])
+
+    __rxor__ = __xor__
+    symmetric_difference = __xor__
+
+    # ---- the one thing that differs from `set`
+    def __iter__(self):
+        n = len(self._ord)
+        ctx = Ctx.cur
+        if n < 2 or ctx is None or not cfg.nd_sets:
+            return iter(list(self._ord))
+        if self._perm is None:
+            perms = _nd_perms(n)
+            i = ctx.notes["setorder"] = ctx.notes.get("setorder", 0) + 1
+            k = int(SymInt(fresh_int(ctx, "setorder%d" % i, 0, len(perms) - 1)))
+            ctx.event("set-iteration", size=n, order=k, elements=[repr(x)[:40] for x in self._ord])
+            self._perm = perms[k]
+        return iter([self._ord[i] for i in self._perm])
+
+    def __repr__(self):
+        return "{" + ", ".join(repr(x) for x in self._ord) + "}" if self._ord else "set()"
+
+    __str__ = __repr__
+
+    def __reduce__(self):
+        return (NDSet, (list(self._ord),))
+
+
+def _nd_plain_order(o):
+    return list(o._ord) if isinstance(o, NDSet) else list(o)
 
 
 # ------------------------------------------------------------------ loader
@@ -2080,6 +2240,9 @@ def load(name, keep_init=False):
     m.__file__ = file
     b = dict(vars(builtins))
     b["__import__"] = _imp
+    if cfg.nd_sets:
+        b["set"] = b["frozenset"] = NDSet
+    m.__dict__["__ndset__"] = NDSet
     m.__dict__["__builtins__"] = b
     _modules[name] = m
     src = open(file).read() if os.path.exists(file) else ""
